@@ -51,6 +51,8 @@ struct DocumentBuilder {
     seen_ids: HashSet<String>,
     id_nodes: HashMap<String, NodeId>,
     xml_id_id: NameId,
+    // the prefixes of the open elements as written in their start tags
+    open_prefixes: Vec<String>,
 }
 
 impl DocumentBuilder {
@@ -67,6 +69,7 @@ impl DocumentBuilder {
             seen_ids: HashSet::new(),
             id_nodes: HashMap::new(),
             xml_id_id: xot.xml_id_id,
+            open_prefixes: Vec::new(),
         }
     }
 
@@ -164,6 +167,7 @@ impl DocumentBuilder {
         let element_value = Value::Element(Element { name_id });
         let node_id = self.add(element_value, xot);
         self.current_node_id = node_id;
+        self.open_prefixes.push(element_builder.prefix);
 
         // add namespace nodes
         for (prefix_id, namespace_id) in &element_builder.namespaces {
@@ -264,6 +268,7 @@ impl DocumentBuilder {
         let current_node = xot.arena.get(self.current_node_id).unwrap();
         if matches!(current_node.get(), Value::Element(_)) {
             self.name_id_builder.pop();
+            self.open_prefixes.pop();
         }
         let closed_node_id = self.current_node_id;
         self.current_node_id = current_node.parent().expect("Cannot close document node");
@@ -289,7 +294,10 @@ impl DocumentBuilder {
             ));
         }
         if let Value::Element(element) = current_node.get() {
-            if element.name_id != name_id {
+            // the end tag has to repeat the name as it is written in the start
+            // tag: another prefix for the same namespace does not match
+            let same_prefix = self.open_prefixes.last().map(|p| p.as_str()) == Some(prefix.as_str());
+            if element.name_id != name_id || !same_prefix {
                 return Err(ParseError::InvalidCloseTag(
                     prefix.to_string(),
                     name.to_string(),
@@ -297,6 +305,7 @@ impl DocumentBuilder {
                 ));
             }
             self.name_id_builder.pop();
+            self.open_prefixes.pop();
         }
         let closed_node_id = self.current_node_id;
         self.current_node_id = current_node.parent().expect("Cannot close document node");
